@@ -61,7 +61,7 @@ SUITE_LOCK = __import__("threading").Lock()   # the repository's tests use fixed
 def suite_(repo, pre):
     sh(pre + "cargo test --workspace --no-run --offline 2>&1", repo, timeout=2400)
     with SUITE_LOCK:
-        rc, out = sh(pre + "cargo test --workspace --no-fail-fast --offline 2>&1", repo, timeout=2400)
+        rc, out = sh("flock /tmp/rm-suite.lock env " + pre + "cargo test --workspace --no-fail-fast --offline 2>&1", repo, timeout=3600)   # (the sub-agents take the same lock)
     passed = sum(int(m) for m in re.findall(r"test result: \w+\. (\d+) passed", out))
     failed = sorted({f.strip() for f in re.findall(r"^test (.*?) \.\.\. FAILED", out, re.M)})
     failed = [re.sub(r"^reactive_mutiny::", "", f) for f in failed]
